@@ -22,6 +22,7 @@ import (
 )
 
 type method struct {
+	callNames map[string]bool // every call: "pkg.Func", "recv.method", "local.method", "func"
 	recvType string
 	name     string
 	locked   bool
@@ -85,10 +86,27 @@ func main() {
 				}
 				recv, typ := recvInfo(fd)
 				if typ == "" {
-					continue
+					typ = "func" // plain function
 				}
-				m := &method{recvType: typ, name: fd.Name.Name, fields: map[string]bool{}, calls: map[string]bool{}, prelock: map[string]bool{}}
+				m := &method{recvType: typ, name: fd.Name.Name, fields: map[string]bool{}, calls: map[string]bool{}, prelock: map[string]bool{}, callNames: map[string]bool{}}
 				methods[typ+"."+fd.Name.Name] = m
+				ast.Inspect(fd.Body, func(n ast.Node) bool {
+					if x, ok := n.(*ast.CallExpr); ok {
+						switch f := x.Fun.(type) {
+						case *ast.Ident:
+							m.callNames[f.Name] = true
+						case *ast.SelectorExpr:
+							if id, ok := f.X.(*ast.Ident); ok {
+								m.callNames[id.Name+"."+f.Sel.Name] = true
+							} else if inner, ok := f.X.(*ast.SelectorExpr); ok {
+								m.callNames[inner.Sel.Name+"."+f.Sel.Name] = true
+							} else {
+								m.callNames["_."+f.Sel.Name] = true
+							}
+						}
+					}
+					return true
+				})
 				if recv == "" {
 					continue
 				}
@@ -187,7 +205,13 @@ func main() {
 		for _, f := range closure(m) {
 			q = append(q, fmt.Sprintf("%q", f))
 		}
-		fmt.Printf("/-- receiver fields `%s` touches (transitively through its own methods) -/\ndef %s_fields : List String := [%s]\n\n", k, id, strings.Join(q, ", "))
+		fmt.Printf("/-- receiver fields `%s` touches (transitively through its own methods) -/\ndef %s_fields : List String := [%s]\n", k, id, strings.Join(q, ", "))
+		var cn []string
+		for c := range m.callNames {
+			cn = append(cn, fmt.Sprintf("%q", c))
+		}
+		sort.Strings(cn)
+		fmt.Printf("/-- calls made directly in the body of `%s` (as written: `x.f`, `pkg.F`, `f`) -/\ndef %s_calls : List String := [%s]\n\n", k, id, strings.Join(cn, ", "))
 	}
 	fmt.Printf("end O4.Facts.%s\n", mod)
 }
